@@ -19,7 +19,7 @@ PY_PERC = "PyLib PyLibSd PyLibPerc PySrcPerc PySrcPercFacts PyLibDrivers PySrcDr
 PY_SCC = "PyLib PyLibSd PyLibCore PyLibSd2 PyLibScc PySrcSdBase PySrcSdScc PySrcSdSccFacts"     # expand_source_SCCs.attach_scc_subdiagram
 PY_SCCMAIN = PY_SCC + " Control PyLibControl PySrcSdSccMain PySrcSdSccMainFacts"     # expand_source_SCCs.expand_source_SCCs
 PY_GETTERS = "PyLib PyLibCore PySrcCore PySrcCoreFacts PySrcGetters PySrcGettersFacts"     # node_ids, stub_ids, expanded_ids, minimal_trap_spaces, find_node, edge_stable_motif, edge_all_stable_motifs (pinned text)
-PY_API = PY_SCCMAIN + " PyLibBlocks PySrcSdBlocks PySrcApi PySrcEndToEndScc"     # public methods expand_scc / expand_block / build; expand_source_blocks
+PY_API = PY_SCCMAIN + " PyLibBlocks PySrcSdBlocks PySrcSdBlocksFacts PySrcApi PySrcEndToEndScc PySrcEndToEndBlocks"     # public methods expand_scc / expand_block / build; expand_source_blocks
 PY_CONTROL = "PyLib PyLibSd PyLibPerc PyLibCore PyLibControl PySrcControl PySrcControlFacts PySrcFindDriversFacts PySrcControlCorollaries"    # control.find_drivers, drivers_of_succession
 PY_ASEEDS = PY_MIN + " Candidates Blocks ASeeds PySrcSdASeeds PySrcSdASeedsFacts"     # _sd_algorithms/expand_attractor_seeds.py
 EXTRA_IMPORTS = {"C02": PY_SD + " " + PY_CORE2 + " PySrcEndToEnd", "C01": PY_API, "C03": PY_SD + " " + PY_ASEEDS + " PySrcComplFacts " + PY_API + " " + PY_GETTERS, "C04": PY_SD + " " + PY_CORE, "C05": PY_CORE2 + " " + PY_MIN, "C13": PY_SD + " " + PY_TARGET + " " + PY_ASEEDS + " PySrcTermFacts " + PY_API, "C14": PY_CORE2 + " " + PY_SCC, "C15": PY_SD + " " + PY_TARGET + " " + PY_ASEEDS, "C16": "PyLib PyLibPickle PySrcPickle PySrcPickleFacts " + PY_CORE2,
@@ -59,6 +59,9 @@ decide on every replayed run.  The source-SCC strategy is modelled (SCC.v) and r
 the 'at least one' clause holds: expand_scc_AttrServed / expand_scc_every_attractor_reported (no attractor is lost).""",
  theorems=[("source_expand_source_SCCs", "py_expand_source_SCCs_spec", "translator tie: the function GENERATED from the current text of expand_source_SCCs.expand_source_SCCs (PySrcSdSccMain.v: root sources, BFS over the levels, recursion through the default expander into the sub-diagrams of the source SCCs, attachment by the generated attach_scc_subdiagram) does what the model's SCC.scc_main does on every diagram satisfying SCCTerm.SI, for every fuel, tape and nesting depth"),
            ("source_expand_source_SCCs_fresh", "py_expand_source_SCCs_fresh", None),
+           ("source_expand_source_blocks", "py_expand_source_blocks_spec", "translator tie for the DEFAULT strategy: the function GENERATED from the current text of expand_source_blocks.expand_source_blocks (PySrcSdBlocks.v: level loop with the visited set, size limits, source fast-forward, grouping of successors into blocks, minimal blocks, stable sort, clean-block search reading the is_clean tape) returns the diagram and result of the model's Blocks.expand_block on every well-formed diagram, for every fuel, option combination and tape"),
+           ("source_expand_source_blocks_fresh", "py_expand_source_blocks_fresh", None), ("source_public_expand_block", "py_api_expand_block_spec", None),
+           ("source_text_build_one_to_one", "py_api_build_one_to_one", "C01 for the SOURCE TEXT of build(): when the generated expand_block with build()'s defaults returns True on a fresh diagram, the clean-block verdicts of the run are right (decided per run) and the seeds of every expanded node are one-to-one with that node's own attractors, then the seeds of the whole diagram are one-to-one with the attractors of the network"),
            ("source_text_expand_scc_every_attractor_reported", "py_api_expand_scc_every_attractor_reported", "C01 ('no attractor is lost') for the SOURCE TEXT of the source-SCC strategy: when the generated public method expand_scc (PySrcApi.v, a call of the generated expand_source_SCCs) returns True on a fresh diagram without the motif-avoidance shortcut, every attractor is reported by an expanded node whose seeds are one-to-one with its own attractors"),
            ("filter_exact", "filter_exact", "given covering candidates, the filter returns exactly one seed per attractor of the node, and the sets are the attractors"),
            ("filter_exact_seeds_only", "filter_exact_seeds_only", "the seeds_only shortcut (last candidate of a pseudo-minimal node) is sound"),
@@ -151,6 +154,9 @@ expand_scc_LeafOK, expand_scc_MinFound) -- although the diagram it builds is not
 statement has a theorem.""",
  theorems=[("source_expand_source_SCCs", "py_expand_source_SCCs_spec", "translator tie: the function GENERATED from the current text of expand_source_SCCs.expand_source_SCCs (PySrcSdSccMain.v: root sources, BFS over the levels, recursion through the default expander into the sub-diagrams of the source SCCs, attachment by the generated attach_scc_subdiagram) does what the model's SCC.scc_main does on every diagram satisfying SCCTerm.SI, for every fuel, tape and nesting depth"),
            ("source_expand_source_SCCs_fresh", "py_expand_source_SCCs_fresh", None),
+           ("source_expand_source_blocks", "py_expand_source_blocks_spec", "translator tie for the DEFAULT strategy: the function GENERATED from the current text of expand_source_blocks.expand_source_blocks (PySrcSdBlocks.v: level loop with the visited set, size limits, source fast-forward, grouping of successors into blocks, minimal blocks, stable sort, clean-block search reading the is_clean tape) returns the diagram and result of the model's Blocks.expand_block on every well-formed diagram, for every fuel, option combination and tape"),
+           ("source_expand_source_blocks_fresh", "py_expand_source_blocks_fresh", None), ("source_public_expand_block", "py_api_expand_block_spec", None),
+           ("source_text_expand_block_complete", "py_api_expand_block_complete", "C03 for the SOURCE TEXT of the default strategy: when the generated public method expand_block returns True (any options, any tape; fresh diagram or any plainly reached one), every minimal trap space is an expanded leaf"), ("source_text_expand_block_complete_from", "py_api_expand_block_complete_from", None),
            ("source_minimal_trap_spaces", "py_minimal_trap_spaces_spec", "the OBSERVATION of C03: SuccessionDiagram.minimal_trap_spaces(), pinned to its current text (PySrcGetters.v; its condition is the generated node_is_minimal), returns the model's minimal_ids"),
            ("source_text_expand_scc_complete", "py_api_expand_scc_complete", "C03 for the SOURCE TEXT of the source-SCC strategy: when the generated public method expand_scc returns True on a fresh diagram, every minimal trap space is an expanded leaf, every expanded leaf is a minimal trap space, and no stub is left"),
            ("source_text_expand_minimal_spaces_complete", "py_expand_minimal_spaces_complete", "C03 for the SOURCE TEXT: when the generated public methods report completion, every minimal trap space is found / everything is expanded"),
@@ -440,6 +446,7 @@ free variable), its two assertions can never fire (expand_scc_no_assert) and its
            ("aseeds_expansion_terminates", "expand_aseeds_terminates", None),
            ("sanitize_clash_loop_terminates", "fresh_total", "the rename loop of sanitize_network_names needs at most one more round than there are variables"),
            ("scc_expansion_terminates", "expand_scc_terminates", "source-SCC strategy: fuel n + 2 always suffices"),
+           ("source_text_expand_block_terminates", "py_api_expand_block_terminates", "the generated expand_block with fuel 3^n + 2 does not run out of fuel on any well-formed diagram"),
            ("source_text_expand_scc_terminates", "py_api_expand_scc_terminates", "the same for the SOURCE TEXT: the generated public method expand_scc on a fresh diagram with fuel n + 2 neither runs out of fuel nor trips one of its assertions"),
            ("scc_expansion_no_assert", "expand_scc_no_assert", "neither assertion of the strategy can fail"),
            ("scc_expansion_edge_strict", "expand_scc_EdgeStrict", None),
